@@ -33,6 +33,56 @@ def withTimeout (parent : Deadline) (now t : Int) : Deadline :=
 def checkedTimeout (routeTimeout confTimeoutMs : Int) : Int :=
   if routeTimeout > 0 then routeTimeout else confTimeoutMs * 1000000
 
+/-! ### rest/server.go + rest/engine.go: which duration reaches `TimeoutHandler` for a route -/
+
+/-- a `RouteOption` as far as the timeout is concerned -/
+inductive RouteOpt where
+  | timeout (t : Int)   -- WithTimeout(t):  r.timeout = t
+  | sse                 -- WithSSE():       r.sse = true; r.timeout = 0
+  | other               -- WithPriority / WithMaxBytes / WithJwt / …: leave `timeout` alone
+  deriving Repr, DecidableEq
+
+/-- `AddRoutes`: `for _, opt := range opts { opt(&r) }` on a zero `featuredRoutes`; its `timeout` field afterwards. -/
+def groupTimeout (opts : List RouteOpt) : Int :=
+  opts.foldl (fun t o => match o with | .timeout x => x | .sse => 0 | .other => t) 0
+
+/-- is the timeout middleware in the chain?  `on`: `Middlewares.Timeout`; `off`: not; `chain`: a user chain
+(`WithChain`) replaces the native middlewares altogether. -/
+inductive MwMode where
+  | on | off | chain
+  deriving Repr, DecidableEq
+
+/-- the engine: `conf.Timeout` (ms), the groups' `timeout` fields in registration order, and `ng.timeout`
+(the running maximum that only feeds http.Server's Read/WriteTimeout). -/
+structure Eng where
+  confMs  : Int
+  mw      : MwMode
+  routes  : List Int
+  timeout : Int
+  deriving Repr, DecidableEq
+
+/-- `newEngine(c)` -/
+def Eng.new (confMs : Int) (mw : MwMode) : Eng :=
+  { confMs := confMs, mw := mw, routes := [], timeout := confMs * 1000000 }
+
+/-- `addRoutes(r)`: append, and `if r.timeout > ng.timeout { ng.timeout = r.timeout }` -/
+def Eng.addRoutes (e : Eng) (opts : List RouteOpt) : Eng :=
+  { e with routes := e.routes ++ [groupTimeout opts],
+           timeout := if groupTimeout opts > e.timeout then groupTimeout opts else e.timeout }
+
+def Eng.build (confMs : Int) (mw : MwMode) (groups : List (List RouteOpt)) : Eng :=
+  groups.foldl Eng.addRoutes (Eng.new confMs mw)
+
+/-- `bindRoutes`: per group (in order) the duration handed to `handler.TimeoutHandler` —
+`ng.checkedTimeout(fr.timeout)` if the middleware is in the chain; 0 stands for "no timeout middleware". -/
+def Eng.bound (e : Eng) : List Int :=
+  e.routes.map fun t => match e.mw with
+    | .on => checkedTimeout t e.confMs
+    | _ => 0
+
+/-- duration of the timeout middleware in front of the routes of group `g` (`none`: no such group) -/
+def Eng.duration (e : Eng) (g : Nat) : Option Int := e.bound[g]?
+
 /-- What a request looks like to the REST timeout middleware. -/
 structure ReqHdr where
   upgradeWebsocket : Bool   -- r.Header.Get("Upgrade") == "websocket"
